@@ -611,7 +611,7 @@ func c04(c *rig.Ctx) {
 		}
 		c.Sample(map[string]any{"journal": j, "shape": shape, "journal_bytes": len(journal), "index_bytes": len(good), "stale_index_bytes": len(stale), "chunks": len(addrs), "variants": len(jobs)})
 		os.RemoveAll(work)
-		if c.Violations() > 60 {
+		if c.UnlistedViolations() > 60 {
 			break
 		}
 	}
